@@ -260,13 +260,15 @@ def _deep(shapes: typing.Sequence[tuple[int, int]]) -> list[dict]:
     thorough=_sh(((2, 1), (1, 2), (2, 2), (1, 3))) + _deep(((3, 1),))
     + [s for s in _deep(((3, 2),)) if s["flavour"] == "async" and "new_avail == False" in s["_pre"]],
     per_prop={
-        "C01": {"quick": _sh(((2, 1), (1, 2)))},
-        "C10": {"quick": _sh(((2, 1), (1, 2)))},
-        "C07": {"quick": _sh(((2, 1), (1, 2), (2, 2)))},
-        "C09": {"quick": _sh(((2, 1), (2, 2)))},
+        # the deep shapes (3,1)/(3,2) are explored under C04 only; the other
+        # properties' clauses are checked on shapes up to (2,2)/(1,3)
+        "C01": {"quick": _sh(((2, 1), (1, 2))), "thorough": _sh(((2, 1), (1, 2), (2, 2), (1, 3)))},
+        "C10": {"quick": _sh(((2, 1), (1, 2))), "thorough": _sh(((2, 1), (1, 2), (2, 2), (1, 3)))},
+        "C07": {"quick": _sh(((2, 1), (1, 2), (2, 2))), "thorough": _sh(((2, 1), (1, 2), (2, 2), (1, 3))) + _deep(((3, 1),))[::5]},
+        "C09": {"quick": _sh(((2, 1), (2, 2))), "thorough": _sh(((2, 1), (1, 2), (2, 2), (1, 3))) + _deep(((3, 1),))[::5]},
         # C08(c): atomic-step invariants of the step as the sync pool runs it (under its lock)
         "C08": {"quick": [s for s in _sh(((2, 2),)) if s["flavour"] == "sync"],
-                "thorough": [s for s in _sh(((2, 2), (1, 3))) + _deep(((3, 1),)) if s["flavour"] == "sync"]},
+                "thorough": [s for s in _sh(((2, 2), (1, 3))) + _deep(((3, 1),))[::3] if s["flavour"] == "sync"]},
     },
     example=dict(N=2, K=1, new_avail=False,
                  a0=False, b0=False, c0=True, d0=True, a1=False, b1=False, c1=False, d1=False,
